@@ -215,8 +215,8 @@ def check_case(sub, case):
 
 
 def run(ctx):
-    ctx.hyp("text", lambda: cases(("delimited", "delimited-de", "fixed")), check_case, ctx.n(1200, 30000))
-    ctx.hyp("sheets", lambda: cases(("excel", "ods")), check_case, ctx.n(500, 10000))
+    ctx.hyp("text", lambda: cases(("delimited", "delimited-de", "fixed")), check_case, ctx.n(3000, 30000))
+    ctx.hyp("sheets", lambda: cases(("excel", "ods")), check_case, ctx.n(1000, 10000))
 
 
 def replay(sub, case):
